@@ -5,16 +5,20 @@ package main
 
 import (
 	"fmt"
+	"os"
+	"path/filepath"
 	"strings"
 
 	"verifharness/hx"
 
+	"github.com/criyle/go-sandbox/cmd/runprog/config"
 	"github.com/criyle/go-sandbox/ptracer"
 	"github.com/criyle/go-sandbox/runner/ptrace/filehandler"
 )
 
 func main() {
 	hx.Register("run", c18Main)
+	hx.Register("asm", c18Asm)
 	hx.Main()
 }
 
@@ -213,6 +217,115 @@ func c18Main(args []string) error {
 			tr.Ev = append(tr.Ev, c18Ev{N: n, R: c18Action(h.CheckSyscall(n))})
 		}
 		to.Write(tr)
+	}
+	return nil
+}
+
+// ---------------------------------------------------------------- policy assembly (GetExtraSet + GetConf)
+
+type c18AsmCase struct {
+	RRaw []string `json:"rraw"`
+	RExt []string `json:"rext"`
+	WRaw []string `json:"wraw"`
+	WExt []string `json:"wext"`
+}
+
+type c18AsmObs struct {
+	c18AsmCase
+	Q     []string `json:"q"`
+	Class string   `json:"class"`
+	Base  string   `json:"base"`
+	Got   string   `json:"got"`
+}
+
+// vdrive asm <cases> <queries> <world dir> <obs>
+func c18Asm(args []string) error {
+	if len(args) != 4 {
+		return fmt.Errorf("want: cases queries worlddir obs")
+	}
+	cases, err := hx.ReadLines[c18AsmCase](args[0])
+	if err != nil {
+		return err
+	}
+	qs, err := hx.ReadLines[struct {
+		Q []string `json:"q"`
+	}](args[1])
+	if err != nil {
+		return err
+	}
+	// the world of PolicyAssembly.tla, for real
+	t, err := filepath.EvalSymlinks(args[2])
+	if err != nil {
+		return err
+	}
+	for _, d := range []string{"x/d", "w/sub"} {
+		if err := os.MkdirAll(filepath.Join(t, d), 0755); err != nil {
+			return err
+		}
+	}
+	for _, f := range []string{"x/f", "x/d/in", "x/t", "w/sub/deep", "w/prog"} {
+		if err := os.WriteFile(filepath.Join(t, f), []byte("x"), 0644); err != nil {
+			return err
+		}
+	}
+	os.Remove(filepath.Join(t, "x/l"))
+	if err := os.Symlink(filepath.Join(t, "x/t"), filepath.Join(t, "x/l")); err != nil {
+		return err
+	}
+	work := filepath.Join(t, "w")
+	name := func(n string) string {
+		switch n {
+		case "f":
+			return filepath.Join(t, "x/f")
+		case "d/":
+			return filepath.Join(t, "x/d") + "/"
+		case "d*":
+			return filepath.Join(t, "x/d") + "/*"
+		case "m":
+			return filepath.Join(t, "x/m")
+		case "l":
+			return filepath.Join(t, "x/l")
+		}
+		return n // relative: "sub"
+	}
+	names := func(l []string) []string {
+		out := []string{}
+		for _, n := range l {
+			out = append(out, name(n))
+		}
+		return out
+	}
+	verdict := func(h interface {
+		CheckRead(string) ptracer.TraceAction
+		CheckWrite(string) ptracer.TraceAction
+		CheckStat(string) ptracer.TraceAction
+	}, class, q string) string {
+		switch class {
+		case "write":
+			return c18Action(h.CheckWrite(q))
+		case "read":
+			return c18Action(h.CheckRead(q))
+		}
+		return c18Action(h.CheckStat(q))
+	}
+	out, err := hx.NewLineWriter(args[3])
+	if err != nil {
+		return err
+	}
+	defer out.Close()
+	prog := []string{filepath.Join(work, "prog")}
+	// assembled exactly as cmd/runprog does
+	_, _, _, base := config.GetConf("", work, prog, filehandler.GetExtraSet(nil, nil), filehandler.GetExtraSet(nil, nil), false)
+	for _, c := range cases {
+		addRead := filehandler.GetExtraSet(names(c.RExt), names(c.RRaw))
+		addWrite := filehandler.GetExtraSet(names(c.WExt), names(c.WRaw))
+		_, _, _, h := config.GetConf("", work, prog, addRead, addWrite, false)
+		for _, q := range qs {
+			qp := filepath.Join(append([]string{t}, q.Q...)...)
+			for _, class := range []string{"write", "read", "stat"} {
+				out.Write(c18AsmObs{c18AsmCase: c, Q: q.Q, Class: class, Base: verdict(base, class, qp), Got: verdict(h, class, qp)})
+			}
+		}
 	}
 	return nil
 }
